@@ -73,7 +73,7 @@ impl Drop for EnvGuard {
     }
 }
 
-/// `( 20 path env .. )`: site 0 (FileAppender) built 60 times, each in a fresh directory, while ANOTHER thread keeps
+/// `( 20 path env .. )`: site 0 (FileAppender) built 200 times, each in a fresh directory, while two OTHER threads keep
 /// setting (to the case's value) and removing the FIRST variable of `env`.  Result ( 5 ( relpath ... ) ): the distinct
 /// locations at which the file appeared (or "?" where none / several did).
 fn run_flapping(c: &[Val]) -> Val {
@@ -90,14 +90,20 @@ fn run_flapping(c: &[Val]) -> Val {
     let _guard = EnvGuard(names);
     let stop = std::sync::Arc::new(AtomicBool::new(false));
     let st = stop.clone();
-    let flapper = std::thread::spawn(move || {
-        while !st.load(Ordering::Relaxed) {
-            std::env::remove_var(&fk);
-            std::env::set_var(&fk, &fv);
-        }
-    });
+    // two threads: whatever the scheduler does, the variable changes state many times during one expansion
+    let flappers: Vec<_> = (0..2)
+        .map(|_| {
+            let (st, fk, fv) = (st.clone(), fk.clone(), fv.clone());
+            std::thread::spawn(move || {
+                while !st.load(Ordering::Relaxed) {
+                    std::env::remove_var(&fk);
+                    std::env::set_var(&fk, &fv);
+                }
+            })
+        })
+        .collect();
     let mut seen: Vec<String> = vec![];
-    for _ in 0..60 {
+    for _ in 0..200 {
         let root = tempfile::tempdir().expect("tempdir");
         let full = format!("{}/{}", root.path().to_str().expect("utf8 temp root"), path);
         let built = FileAppender::builder().build(full);
@@ -114,7 +120,9 @@ fn run_flapping(c: &[Val]) -> Val {
         }
     }
     stop.store(true, Ordering::Relaxed);
-    let _ = flapper.join();
+    for f in flappers {
+        let _ = f.join();
+    }
     seen.sort();
     Val::L(vec![Val::N(5), Val::L(seen.iter().map(|p| cps_of(p)).collect())])
 }
